@@ -1,3 +1,216 @@
-From Verif Require Import Prelude Code39M Code93M Code39Spec Code93Spec.
-Theorem C07_tmp : True. Proof. exact I. Qed.
-Print Assumptions C07_tmp.
+(* C07 — Code 39 and Code 93: symbols decode to the given text in every option mix.
+   Property theorems only; proofs live in proofs/Code39P.v and proofs/Code93P.v.
+
+   Models: model/Code39M.v, model/Code93M.v (line-by-line models of
+   /repo/code39/encoder.go and /repo/code93/encoder.go over the generated tables
+   gen/TabCode39.v, gen/TabCode93.v; Go's UTF-8 decoding in model/Utf8M.v).
+   Specifications: spec/Code39Spec.v, spec/Code93Spec.v (literal standard tables,
+   symbol layout, check characters, reference decoder, full-ASCII tables).
+   Texts are byte lists; all theorems hold for ARBITRARY lists of integers (an
+   element outside 0..255 behaves like an invalid byte), both option flags, no bound
+   on the length. *)
+From Coq Require Import Permutation.
+From Verif Require Import Prelude Barcode BitListM Utf8M Code39M Code93M Code39Spec Code93Spec
+  TabCode39 TabCode93 Code39P Code93P.
+
+(* ====================================================================== *)
+(* Code 39                                                                 *)
+(* ====================================================================== *)
+
+(* T1. The source's encodeTable, as a map from runes, IS the standard's character
+   table: the 43 data characters with values 0..42 and their 9-element patterns
+   (3 wide of 9, wide = 2 modules: 12 modules per character) and "*" (no value). *)
+Theorem C07_code39_table_is_standard : forall r, c39_lookup r = c39_spec_entry r.
+Proof. exact c39_table_is_standard. Qed.
+Print Assumptions C07_code39_table_is_standard.
+
+(* T2. The 44 patterns are pairwise distinct (so reading a character is
+   unambiguous), 12 modules each, each 9 elements with exactly 3 wide. *)
+Theorem C07_code39_patterns_distinct :
+  NoDup c39_symbols
+  /\ Forall (fun p => length p = 12%nat) c39_symbols
+  /\ forallb c39_three_of_nine (map str_bytes c39_width_patterns) = true
+  /\ length c39_symbols = 44%nat.
+Proof. exact c39_patterns_distinct. Qed.
+Print Assumptions C07_code39_patterns_distinct.
+
+(* T3. The values (and the keys) of the source table are pairwise distinct ... *)
+Theorem C07_code39_values_distinct :
+  NoDup (map (fun e : Z * (Z * list bool) => fst (snd e)) code39_encode_table)
+  /\ NoDup (map fst code39_encode_table).
+Proof. exact (conj c39_values_nodup c39_keys_nodup). Qed.
+Print Assumptions C07_code39_values_distinct.
+
+(* T4. ... hence getChecksum's search of the Go map BY VALUE returns the same rune
+   for every iteration order of the map (the model searches in the listed order). *)
+Theorem C07_code39_value_search_order_independent : forall tbl v,
+  Permutation code39_encode_table tbl ->
+  c39_find_value tbl v = c39_find_value code39_encode_table v.
+Proof. exact c39_value_search_order_independent. Qed.
+Print Assumptions C07_code39_value_search_order_independent.
+
+(* T5. The source's extendedTable (absent key = the character itself) IS the
+   standard's full-ASCII table, for all 128 codes. *)
+Theorem C07_code39_extended_table_is_standard : forall b, 0 <= b <= 127 ->
+  match map_get b code39_extended_table with Some v => v | None => utf8_encode_rune b end
+  = c39_spelling b.
+Proof. exact c39_extended_table_is_standard. Qed.
+Print Assumptions C07_code39_extended_table_is_standard.
+
+(* T6. Key lemma for full ASCII: resolving the shift pairs of the standard spelling
+   of any ASCII text gives the text back (the 128 spellings are unambiguous: shift
+   characters occur only as pair prefixes). *)
+Theorem C07_code39_unspell_spell : forall s,
+  forallb is_ascii s = true -> c39_unspell (c39_spell s) = Some s.
+Proof. exact c39_unspell_spell. Qed.
+Print Assumptions C07_code39_unspell_spell.
+
+(* T7. Acceptance.  Basic mode accepts exactly the texts over the 43 data characters
+   (so no '*', no lower case, no non-ASCII or ill-formed UTF-8); full-ASCII mode
+   accepts exactly the texts of bytes 0..127.  Everything else is an error return;
+   the encoder never panics. *)
+Theorem C07_code39_acceptance : forall s cs full,
+  (c39_accepts full s = true -> exists bc, c39_encode s cs full = Ok bc) /\
+  (c39_accepts full s = false -> c39_encode s cs full = Err).
+Proof. exact c39_acceptance. Qed.
+Print Assumptions C07_code39_acceptance.
+
+(* T8. Main theorem.  Whenever the encoder returns a barcode bc for text s, there is
+   a sequence vals of data values (0..42) such that
+   - bc is the 1-D barcode of kind "Code 39" whose single row is the standard layout
+     of: start character, the data characters vals, the check character (sum of vals
+     modulo 43) iff includeChecksum, stop character; each drawn with its standard
+     pattern, one narrow space between characters; width = number of modules;
+   - Content() is the printed form of vals, which is s itself in basic mode and the
+     standard spelled-out form of s in full-ASCII mode;
+   - CheckSum() is the sum of vals modulo 43 whether or not the check character is drawn;
+   - the reference decoder, told the same two options, reads vals from the row and
+     returns exactly s. *)
+Theorem C07_code39_roundtrip : forall s cs full bc,
+  c39_encode s cs full = Ok bc ->
+  exists vals,
+    Forall (fun v => 0 <= v < 43) vals /\
+    bc = mk1d KCode39 (map c39_value_char vals) (Some (c39_check vals))
+              (c39_layout (c39_symbol cs vals)) /\
+    map c39_value_char vals = (if full then c39_spell s else s) /\
+    c39_decode_values cs (c39_layout (c39_symbol cs vals)) = Some vals /\
+    c39_decode cs full (c39_layout (c39_symbol cs vals)) = Some s /\
+    c39_accepts full s = true.
+Proof. exact c39_roundtrip. Qed.
+Print Assumptions C07_code39_roundtrip.
+
+(* the hypothesis of T8 is satisfiable: "Code 39*", full ASCII, with check character *)
+Example C07_code39_nonvacuous :
+  exists bc, c39_encode [67; 111; 100; 101; 32; 51; 57; 42] true true = Ok bc
+             /\ bc_width bc = 194 /\ bc_checksum bc = Some 37.
+Proof. exact c39_example. Qed.
+
+(* ====================================================================== *)
+(* Code 93                                                                 *)
+(* ====================================================================== *)
+
+(* T9. The source's encodeTable, as a map from runes (data bits drawn as 9 modules,
+   most significant first), IS the standard's character table: 43 printable data
+   characters, the four shift characters as FNC1..FNC4 = U+00F1..U+00F4 with values
+   43..46, and start/stop "*" = symbol character 47. *)
+Theorem C07_code93_table_is_standard : forall r,
+  match c93_lookup r with Some (v, d) => Some (v, msb_bits 9 d) | None => None end
+  = c93_spec_entry r.
+Proof. exact c93_table_is_standard. Qed.
+Print Assumptions C07_code93_table_is_standard.
+
+(* T10. The 48 patterns are pairwise distinct, 9 modules each (six widths 1..4). *)
+Theorem C07_code93_patterns_distinct :
+  NoDup c93_symbols
+  /\ Forall (fun p => length p = 9%nat) c93_symbols
+  /\ forallb c93_widths_ok (map str_bytes c93_width_patterns) = true
+  /\ length c93_symbols = 48%nat.
+Proof. exact c93_patterns_distinct. Qed.
+Print Assumptions C07_code93_patterns_distinct.
+
+(* T11/T12. Values and keys distinct; the search by value is order independent. *)
+Theorem C07_code93_values_distinct :
+  NoDup (map (fun e : Z * (Z * Z) => fst (snd e)) code93_encode_table)
+  /\ NoDup (map fst code93_encode_table).
+Proof. exact (conj c93_values_nodup c93_keys_nodup). Qed.
+Print Assumptions C07_code93_values_distinct.
+
+Theorem C07_code93_value_search_order_independent : forall tbl v,
+  Permutation code93_encode_table tbl ->
+  c93_find_value tbl v = c93_find_value code93_encode_table v.
+Proof. exact c93_value_search_order_independent. Qed.
+Print Assumptions C07_code93_value_search_order_independent.
+
+(* T13. Every entry of the source's extendedTable (all 128 present: indexing never
+   panics) is the text of a standard spelling of its ASCII code. *)
+Theorem C07_code93_extended_table_is_standard : forall b, 0 <= b <= 127 ->
+  exists vals, zget code93_extended_table b = Some (c93_values_text vals)
+               /\ Forall (fun v => 0 <= v < 47) vals /\ In vals (c93_spellings b).
+Proof. exact c93_extended_table_standard_ex. Qed.
+Print Assumptions C07_code93_extended_table_is_standard.
+
+(* T14. Key lemma for full ASCII: the source's spelling of any ASCII text is the
+   text of a value sequence whose shift pairs resolve to the text. *)
+Theorem C07_code93_unspell_spell : forall s, forallb is_ascii s = true ->
+  exists vals,
+    c93_values_text vals
+    = flat_map (fun b => match zget code93_extended_table b with Some e => e | None => [] end) s
+    /\ c93_unspell vals = Some s.
+Proof. exact c93_unspell_spell_ex. Qed.
+Print Assumptions C07_code93_unspell_spell.
+
+(* T15. Acceptance.  Basic mode accepts exactly the texts that are sequences of the
+   47 data characters: the 43 printable ones and FNC1..FNC4 written as the UTF-8
+   byte pairs C3 B1..C3 B4 (so no '*', no other non-ASCII rune, no ill-formed
+   UTF-8); full-ASCII mode accepts exactly the texts of bytes 0..127.  Everything
+   else is an error return; the encoder never panics. *)
+Theorem C07_code93_acceptance : forall s cs full,
+  (c93_accepts full s = true -> exists bc, c93_encode s cs full = Ok bc) /\
+  (c93_accepts full s = false -> c93_encode s cs full = Err).
+Proof. exact c93_acceptance. Qed.
+Print Assumptions C07_code93_acceptance.
+
+(* T16. Main theorem.  Whenever the encoder returns a barcode bc for text s, there is
+   a sequence vals of data values (0..46) such that
+   - bc is the 1-D barcode of kind "Code 93" (no integer checksum) whose single row is
+     the standard layout of: start character, the data characters vals, then the check
+     characters C (weights 1..20 from the right, modulo 47) and K (weights 1..15 over
+     data and C, modulo 47) iff includeChecksum -- NO check characters otherwise --,
+     stop character, termination bar; each character drawn with its standard pattern;
+   - Content() is the text of vals, which is s itself in basic mode and the source's
+     spelled-out form of s in full-ASCII mode, whose shift pairs resolve to s;
+   - the reference decoder, told the same two options, reads vals from the row and
+     returns exactly s. *)
+Theorem C07_code93_roundtrip : forall s cs full bc,
+  c93_encode s cs full = Ok bc ->
+  exists vals,
+    Forall (fun v => 0 <= v < 47) vals /\
+    bc = mk1d KCode93 (c93_values_text vals) None (c93_layout (c93_symbol cs vals)) /\
+    (if full
+     then c93_values_text vals
+          = flat_map (fun b => match zget code93_extended_table b with Some e => e | None => [] end) s
+          /\ c93_unspell vals = Some s
+     else c93_values_text vals = s) /\
+    c93_decode_values cs (c93_layout (c93_symbol cs vals)) = Some vals /\
+    c93_decode cs full (c93_layout (c93_symbol cs vals)) = Some s /\
+    c93_accepts full s = true.
+Proof. exact c93_roundtrip_stmt. Qed.
+Print Assumptions C07_code93_roundtrip.
+
+(* the hypothesis of T16 is satisfiable: "Code 93*", full ASCII, with C and K *)
+Example C07_code93_nonvacuous :
+  exists bc, c93_encode [67; 111; 100; 101; 32; 57; 51; 42] true true = Ok bc
+             /\ bc_width bc = 145 /\ bc_checksum bc = None.
+Proof. exact c93_example. Qed.
+
+(* ====================================================================== *)
+(* the UTF-8 model (used by both encoders, and by the Code 128 model)       *)
+(* ====================================================================== *)
+
+(* An ASCII-only string is its own rune sequence; a string with any other byte has
+   a rune above 127 (this is why full-ASCII mode accepts exactly ASCII). *)
+Theorem C07_utf8_ascii : forall s,
+  (forallb is_ascii s = true -> utf8_decode s = s) /\
+  (forallb is_ascii s = false -> exists r, In r (utf8_decode s) /\ r > 127).
+Proof. exact (fun s => conj (utf8_decode_ascii s) (utf8_decode_nonascii s)). Qed.
+Print Assumptions C07_utf8_ascii.
